@@ -44,6 +44,8 @@ structure DSt where
   ackDel : List String
   /-- a stale close callback removed a fresh instance from the map -/
   orphaned : Bool := false
+  /-- cause of a loss that the next `reopen` will show -/
+  pendingCause : String := ""
   /-- fact: DeleteTreasure refuses to work on an instance that has been closed / destroyed and the gateway deletes the
       remaining keys of the request on the instance that is mapped then -/
   delChecksClosed : Bool := true
@@ -87,8 +89,10 @@ def destroyFin (d : DSt) (t : Nat) : Option DSt :=
   | none => none
   | some d1 => if d1.s.live && d1.s.stage == 1 then acts d1 [.closeFlush, .closeDone] else some d1
 
+/-- a step after which an acknowledged write is in no place a re-open would find it.  The flag is attached to the next
+    `reopen` line — the line whose reply observes the loss — not to the step itself. -/
 def flag (d0 d : DSt) (cause : String) : DSt × String :=
-  if !d.flagged && durableB d0.s && !durableB d.s then ({ d with flagged := true }, s!"\t#F:{cause}") else (d, "")
+  if !d.flagged && durableB d0.s && !durableB d.s then ({ d with flagged := true, pendingCause := cause }, "") else (d, "")
 
 /-- Set on the instance of generation `g` (value level) -/
 def writeV (d : DSt) (g : Nat) (k v : String) : DSt × String :=
@@ -152,7 +156,7 @@ def delSecond (d : DSt) (t : Th) : DSt × String :=
 def step (d : DSt) (line : String) : DSt × String :=
   match words line with
   | ["case", _, _, _] =>
-    ({ d with s := init [], gens := [], fileV := [], ths := [], next := 10, flagged := false, markers := [], ackDel := [], orphaned := false, stopped := none, deadDelete := false }, line)
+    ({ d with s := init [], gens := [], fileV := [], ths := [], next := 10, flagged := false, markers := [], ackDel := [], orphaned := false, stopped := none, deadDelete := false, pendingCause := "" }, line)
   | ["set", k, v] =>
     let t := d.next
     match acts d (summonActs d t) with
@@ -360,8 +364,8 @@ def step (d : DSt) (line : String) : DSt × String :=
       let n := if d.s.live then 1 else 0
       match act d .exit with
       | some d2 =>
-        let (d3, fl) := flag d d2 "C16-stop-returns-before-swamps-closed"
-        ({ d3 with stopped := some n }, s!"stopped open={n}" ++ fl)
+        let (d3, _) := flag d d2 "C16-stop-returns-before-swamps-closed"
+        ({ d3 with stopped := some n, pendingCause := "" }, s!"stopped open={n}" ++ (if n > 0 then "\t#F:C16-stop-returns-before-swamps-closed" else ""))
       | none => (d, "hang")
   | ["close"] =>
     if !d.s.live then (d, "closed") else
@@ -375,14 +379,15 @@ def step (d : DSt) (line : String) : DSt × String :=
     if d.stopped.isSome && d.stopped != some 0 then (d, "keys=?") else
     let back := fun (x : DSt) => if (memOf x x.s.gen).any (fun r => x.ackDel.contains r.key) then
         (if x.deadDelete then "\t#F:C16-delete-continues-on-closed-instance" else "\t#F:C16-delete-after-recreate-resurrects") else ""
-    if d.s.live then (d, showKeys (memOf d d.s.gen) ++ back d)
-    else if d.fileV.isEmpty then (d, "keys=[]")
+    let lost := fun (x : DSt) => if x.pendingCause != "" then s!"\t#F:{x.pendingCause}" else ""
+    if d.s.live then ({ d with pendingCause := "" }, showKeys (memOf d d.s.gen) ++ back d ++ lost d)
+    else if d.fileV.isEmpty then ({ d with pendingCause := "" }, "keys=[]" ++ lost d)
     else
       let t := d.next
       -- the value-level file may hold keys the key-set model has dropped (lost delete markers)
       let d0 := { d with s := { d.s with file := d.fileV.map (fun r => keyNum r.key) } }
       match acts d0 (summonActs d0 t ++ [.cease t]) with
-      | some d1 => ({ d1 with next := t + 1 }, showKeys (memOf d1 d1.s.gen) ++ back d1)
+      | some d1 => ({ d1 with next := t + 1, pendingCause := "" }, showKeys (memOf d1 d1.s.gen) ++ back d1 ++ lost d)
       | none => (d, "hang")
   | _ => (d, "bad-op")
 
